@@ -32,7 +32,7 @@ CONFIGS = {
     "bus-none": ["-p", "aldrin", "-p", "aldrin-broker", "--lib"],
     # narrow configurations used by the self-test (one mutated scratch copy per run)
     "broker-all": ["-p", "aldrin-broker", "--lib", "--all-features"],
-    "core-all": ["-p", "aldrin-core", "--lib", "--all-features"],
+    "core-all": ["-p", "aldrin-core", "-p", "aldrin-macros", "--lib", "--all-features"],
     "client-all": ["-p", "aldrin", "-p", "aldrin-broker", "--lib", "--all-features"],
 }
 
